@@ -17,7 +17,7 @@ RULE = ('seeded generator: non-negative images 1..40 per side of any aspect rati
 ASSUMPTIONS = ['a reference convolution whose minimum is above -1e-12*max counts as non-negative']
 PLAN = {'quick': {'gen': 8}, 'thorough': {'gen': 16, 'tests': 1, 'docs': 1}}
 REQUIRED_BUCKETS = ['pixel', 'jitter', 'smear', 'shape:square', 'shape:nonsquare', 'shape:odd', 'shape:even', 'img:smooth',
-                    'img:spiky', 'conv:nonneg', 'extent:0', 'translate', 'units']
+                    'img:spiky', 'conv:nonneg', 'extent:0', 'translate', 'units', 'sequence', 'img:integer']
 REQUIRED_ANCHORS = ['probe:pixel', 'probe:jitter', 'probe:smear']
 REQUIRED_ORACLES = ['blur:shape', 'blur>=0', 'blur=conv', 'blur:total', 'translate', 'identity', 'units']
 
@@ -189,5 +189,42 @@ def workload(ctx, lentil):
                           desc, scale=sc_)
             except Exception as e:
                 ctx.check(False, 'units', f'{kind}|units|raises={type(e).__name__}', str(e), desc)
+    # consecutive calls that agree in image shape, extent argument and oversampling but not in pixel scale (and vice versa):
+    # the online oracle checks every call, so a kernel remembered from the previous call does not go unnoticed
+    for i in range(ctx.count(20, 150)):
+        shape = (int(rng.integers(2, hi + 1)), int(rng.integers(2, hi + 1)))
+        img = image(rng, shape, True)
+        os_ = int(rng.integers(1, 5))
+        ext_phys = float(rng.uniform(5e-6, 3e-5))
+        ctx.case({'blur-sequence': list(shape), 'os': os_, 'extent': ext_phys}, ['sequence'])
+        for ps in (float(rng.uniform(4e-6, 8e-6)), float(rng.uniform(9e-6, 2e-5)), float(rng.uniform(4e-6, 8e-6))):
+            try:
+                with np.errstate(all='ignore'):
+                    lentil.jitter(img, ext_phys, pixelscale=ps, oversample=os_)
+                    lentil.smear(img, ext_phys, angle=33.0, pixelscale=ps, oversample=os_)
+            except Exception:
+                pass
+        for o2 in (1, 3, 2):
+            try:
+                with np.errstate(all='ignore'):
+                    lentil.detector.pixel(img, oversample=o2)
+                    lentil.jitter(img, 1.5, oversample=o2)
+            except Exception:
+                pass
+    # integer-typed images (photon counts, DN frames) are images too
+    for i in range(ctx.count(20, 150)):
+        shape = (int(rng.integers(2, hi + 1)), int(rng.integers(2, hi + 1)))
+        dt = [np.int64, np.uint16, np.int32][i % 3]
+        img = np.round(image(rng, shape, True) % 5e4).astype(dt)
+        if img.sum() == 0:
+            img[0, 0] = 7
+        ctx.case({'blur-integer-image': list(shape), 'dtype': np.dtype(dt).name}, ['img:integer'])
+        try:
+            with np.errstate(all='ignore'):
+                lentil.detector.pixel(img, oversample=int(rng.integers(1, 5)))
+                lentil.jitter(img, float(rng.uniform(0.3, 3)))
+                lentil.smear(img, float(rng.uniform(0.3, 5)), angle=float(rng.uniform(0, 180)))
+        except Exception:
+            pass
     # pixel at oversample 1 on an image: identity only in the trivial 1x1 case; check zero-extent identity for pixel via the
     # transfer function instead (sinc(0)=1 everywhere requires oversample -> 0, not expressible): covered by blur=conv.
